@@ -51,7 +51,31 @@ func (a *Activation) call(st *State, ins *ssa.Call, cc *ssa.CallCommon, pos toke
 		callee = c.Fn
 		bindings = c.Bindings
 	}
+	if callee == nil && g.noopFns[fv.T.S] {
+		setRes(a.zeroVal(resT))
+		return
+	}
 	if callee == nil {
+		// a call through a function-typed struct field may have a contract keyed by the
+		// field: "<pkg>::field (T).name"
+		if key, ok := fieldCallKey(cc.Value); ok {
+			if spec := g.eng.specs.funcs[key]; spec != nil {
+				sig := cc.Signature()
+				vars := map[string]SVal{}
+				for i := 0; i < sig.Params().Len() && i < len(args); i++ {
+					n := sig.Params().At(i).Name()
+					if n == "" || n == "_" {
+						n = fmt.Sprintf("p%d", i)
+					}
+					vars[n] = SVal{T: a.asTerm(st, args[i], sig.Params().At(i).Type()), Ty: sig.Params().At(i).Type()}
+					vars[fmt.Sprintf("p%d", i)] = vars[n]
+				}
+				pkg := g.eng.byPath[strings.SplitN(key, "::", 2)[0]]
+				pre := st.clone()
+				setRes(a.applyContract(st, pre, spec, pkg, strings.Replace(strings.TrimPrefix(key, modPath+"/"), "::", ".", 1), vars, resultNames(sig), sig.Results(), pos))
+				return
+			}
+		}
 		a.havocCall(st, "dynamic call in "+a.name, args, resT, setRes, true)
 		return
 	}
@@ -575,4 +599,30 @@ func (g *Gen) useByteSeq() {
 	)
 	g.quantified = true
 	g.trusted["bytes.Compare/bytes.Equal are modelled as a total order / equality on abstract byte sequences (ByteSeq); the empty sequence is least; extensionality (equal contents ⇒ equal ByteSeq) is axiomatised only where stated"] = true
+}
+
+// fieldCallKey recognises a call through a function-typed field loaded from a struct
+// (v = *&x.f; v(...)) and returns the contract key "<pkg>::field (T).f".
+func fieldCallKey(v ssa.Value) (string, bool) {
+	u, ok := v.(*ssa.UnOp)
+	if !ok || u.Op != token.MUL {
+		return "", false
+	}
+	fa, ok := u.X.(*ssa.FieldAddr)
+	if !ok {
+		return "", false
+	}
+	pt, ok := fa.X.Type().Underlying().(*types.Pointer)
+	if !ok {
+		return "", false
+	}
+	nt, ok := pt.Elem().(*types.Named)
+	if !ok || nt.Obj().Pkg() == nil {
+		return "", false
+	}
+	st, ok := nt.Underlying().(*types.Struct)
+	if !ok {
+		return "", false
+	}
+	return nt.Obj().Pkg().Path() + "::field (" + nt.Obj().Name() + ")." + st.Field(fa.Field).Name(), true
 }
